@@ -10,6 +10,9 @@ CONSTANTS
   MaxHist = 4
   ExtNames <- MC_ExtNone
   MaxTimes <- MC_MaxTimesNone
+  NGroups <- MC_NGroupsNone
+  MutOps <- MC_MutOpsTwo
+  Renames <- MC_RenamesNone
   AsFound_AliasWhenNoCutoff = FALSE
   AsFound_PopOnStore = FALSE
   AsFound_BaseCsvDropsT = FALSE
